@@ -30,6 +30,7 @@ def parsePrim : List String → Option (Prim × List String)
   | "yield" :: a :: r => some (.yield (parseAtom a), r)
   | "signal" :: n :: a :: r => some (.signal (num n) (parseAtom a), r)
   | "error" :: a :: r => some (.error (parseAtom a), r)
+  | "debug" :: a :: r => some (.debug (parseAtom a), r)
   | "resume" :: f :: a :: r => some (.resume (parseAtom f) (parseAtom a), r)
   | "cancel" :: f :: a :: r => some (.cancel (parseAtom f) (parseAtom a), r)
   | "propagate" :: a :: f :: r => some (.propagate (parseAtom a) (parseAtom f), r)
